@@ -7,6 +7,8 @@ mod rng;
 mod util;
 mod vstore;
 #[cfg(feature = "full")]
+mod sim;
+#[cfg(feature = "full")]
 mod props;
 
 use std::path::PathBuf;
